@@ -6,6 +6,8 @@ import (
 	"reflect"
 	"strings"
 
+	"go.mongodb.org/mongo-driver/bson"
+
 	"github.com/256dpi/lungo/bsonkit"
 )
 
@@ -57,6 +59,16 @@ func validateReplacement(doc bsonkit.Doc) error {
 		return fmt.Errorf("replacement document cannot contain keys beginning with '$'")
 	}
 	return nil
+}
+
+// copyValue returns a deep copy of a value that is handed out to the caller, so
+// that mutating it cannot reach the stored documents.
+func copyValue(v interface{}) interface{} {
+	doc, err := bsonkit.Transform(bson.D{{Key: "v", Value: v}})
+	if err != nil {
+		return v
+	}
+	return (*doc)[0].Value
 }
 
 func useTransaction(ctx context.Context, engine *Engine, lock bool, fn func(*Transaction) (interface{}, error)) (interface{}, error) {
